@@ -34,6 +34,7 @@ fn main() {
         "C05" => props::c05::run(cx),
         "C08" => props::c08::run(cx),
         "C10" => props::c10::run(cx),
+        "C11" => props::c11::run(cx),
         "C13" => props::c13::run(cx),
         "C18" => props::c18::run(cx),
         _ => {
